@@ -165,6 +165,10 @@ def corpus(kind, spec, canary, dtd_path, port, rng):
         # (a refusal may quote the text it refuses: the marker is spelled by two entities, so it only exists where they were expanded)
         ents = ['<!ENTITY z "LOL"><!ENTITY e0 "&z;%s">' % repl] + ['<!ENTITY e%d "%s">' % (i, ('&e%d;' % (i - 1)) * fan) for i in range(1, depth + 1)]
         inner.append(('bomb-anyxml-attr-chain-f%d-d%d' % (fan, depth), '<!DOCTYPE x [%s]><x>&e%d;</x>' % (''.join(ents), depth), True, 'LOL' + repl))
+    # the same inner documents the way a stored file starts: with an XML declaration that names an encoding
+    inner = inner + [('%s-decl%d' % (tname, di), decl + text, is_bomb, marker) for tname, text, is_bomb, marker in inner
+                     for di, decl in enumerate(('<?xml version="1.0" encoding="utf-8"?>', "<?xml version='1.0' encoding='ISO-8859-1' standalone='no'?>\n",
+                                                '<?xml version="1.0"?>'))]
     for tname, text, is_bomb, marker in inner:
         doc = re.sub(r'<tns:c>', lambda m: '<tns:c x=%s>' % quoteattr(text), frag_body, count=1)
         docs.append({'template': tname, 'method': 'echo_frag', 'pos': 'attr-declared', 'doc': doc, 'bomb': is_bomb, 'control': tname.endswith('-plain'),
